@@ -293,6 +293,12 @@ def gen_cases(tier: str, seed: int) -> List[Dict]:
         cond = (numpy.arange(S.size_of(bshape)).reshape(bshape) % 2 == 0).tolist()
         add("where", [P(s1, "a", names=("q0", "q2")), P(s2, "b", names=("q1",))], {"cond": cond})
         add("where", [P(s1, "a"), S.make_numeric_spec("c", "scalar", (), rng, 1)], {"cond": cond}, tag="-num")
+    # where: uniform conditions, and conditions whose shape is not covered by the operands' own broadcast shape
+    for s1, s2, cshape in [((), (), (3,)), ((2,), (2,), (2, 1)), ((1, 3), (), (2, 3)), ((2,), (), (2,)), ((), (2, 1), (1, 2))]:
+        full = numpy.broadcast_shapes(s1, s2, cshape)
+        for fill in (True, False, None):
+            cond = numpy.full(cshape, bool(fill)) if fill is not None else (numpy.arange(S.size_of(cshape)).reshape(cshape) % 2 == 1)
+            add("where", [P(s1, "a", names=("q0", "q1")), P(s2, "b", names=("q1",))], {"cond": cond.tolist()}, tag="-cond%s" % ("T" if fill else "F" if fill is False else "M"))
     add("choose", [P((3,), "a")], {"sel": [0, 2, 1, 0]})
     add("choose", [P((2, 2), "a")], {"sel": [1, 0]})
     add("choose", [P((3, 2), "a")], {"sel": [[0, 1], [2, 0]]})
@@ -321,7 +327,9 @@ def gen_cases(tier: str, seed: int) -> List[Dict]:
         keep: List[Dict] = []
         for fn, cs in byfn.items():
             rng.shuffle(cs)
-            keep.extend(cs[: max(6, len(cs) // 3)])
+            must = [c for c in cs if "-cond" in c["id"] or "-idx" in c["id"]]
+            rest = [c for c in cs if c not in must]
+            keep.extend(must + rest[: max(6, len(rest) // 3)])
         cases = sorted(keep, key=lambda c: c["id"])
     return cases
 
